@@ -2,7 +2,7 @@
    a range that is not a whole number of seconds is scaled by range/trunc(range). Witness: rate(m[1500ms]). *)
 From Coq Require Import String.
 From Coq Require Import QArith ZArith List Bool Sorted.
-From OG Require Import C18.Model3 C18.Model C18.ProofsA.
+From OG Require Import C18.Model4 C18.ProofsI C18.Model3 C18.Model C18.ProofsA.
 Import ListNotations.
 Open Scope Q_scope.
 
@@ -40,3 +40,10 @@ Example C18_binop_walk_witness_values :
   walk_current Qplus wit_s wit_chunk 0 = [(0%Z, 10 + 20); (60%Z, 11 + 51); (120%Z, 12 + 52)] /\
   walk_repaired Qplus wit_s wit_chunk 0 = [(0%Z, 10 + 20)] /\ join_spec Qplus wit_s (nth 0 wit_chunk []) = [(0%Z, 10 + 20)].
 Proof. vm_compute. repeat split. Qed.
+
+(* C18-instant-range-function-drops-series-ending-stale: today's reducer protocol drops the deferred window when the LAST
+   record holds nothing but staleness markers.  Witness: records [(0,1) (30,2)] and [(60, marker)]: upstream counts 2. *)
+Theorem C18_stale_protocol_current_refuted :
+  exists cut, stale_protocol_current impl_count_over_time cut <> spec_count_over_time (drop_stale (concat cut)).
+Proof. exists wit_stale_cut. vm_compute. discriminate. Qed.
+Print Assumptions C18_stale_protocol_current_refuted.
